@@ -880,8 +880,8 @@ class MapType(_ParameterizedType):
             length = 2
         numelements = unpack(byts[:length])
         p = length
-        themap = util.OrderedMapSerializedKey(key_type, protocol_version)
         inner_proto = max(3, protocol_version)
+        themap = util.OrderedMapSerializedKey(key_type, inner_proto)
         for _ in range(numelements):
             key_len = unpack(byts[p:p + length])
             p += length
